@@ -28,6 +28,10 @@ type Engine struct {
 	cs     *ContractSet
 	loadS  float64
 	stored map[*ssa.Global]bool
+	// prop: the property being checked. A clause whose name starts with "Cnn_"
+	// belongs to property Cnn only: its obligations are generated in that
+	// property's check and nowhere else (functions shared by several properties)
+	prop string
 }
 
 func LoadEngine(repo, verif string, patterns []string) (*Engine, error) {
